@@ -124,8 +124,11 @@ Print Assumptions C09_f_own_key.
    total-bounds tuple captured by _with_hilbert_distance_column is the same.  That
    nanmin / nanmax over the partitions of the per-partition nanmin / nanmax equals the
    nanmin / nanmax over all rows (order theory of binary64 [<?] with NaN skipped, zero
-   signs irrelevant to the keys) is not proved; the kernel evaluates the two-level
-   reduction on the real input partitions of every packing of every run. *)
+   signs irrelevant to the keys) was not proved when this theorem was stated; it is now:
+   see C09_f_total_bounds_partition_independent and the UNCONDITIONAL
+   C09_f_key_partition_independent further down (Proofs/FloatBoundsCombine.v).  The
+   kernel still evaluates the two-level reduction on the real input partitions of every
+   packing of every run. *)
 Theorem C09_f_key_partition_independent_partial :
   forall tb p parts parts' keys keys',
     concat parts = concat parts' ->
@@ -147,3 +150,88 @@ Proof. exact ex_f_pack_keys_holds. Qed.
    computes it, (v - lo) * (n / width), and in cell 5 with (v - lo) / width * n *)
 Example ex_f_operation_order_matters : ex_f_operation_order_stmt.
 Proof. exact ex_f_operation_order_holds. Qed.
+
+(* ------------------------------------------------------------------ *)
+(* Binary64 part, unconditional (Proofs/FloatBoundsCombine.v): the two-level
+   nanmin / nanmax of DaskGeoSeries.total_bounds does not depend on the partitioning
+   up to the sign of a zero, and no key depends on the sign of a zero in the total
+   bounds.  From the standard library's specifications of the primitive comparisons
+   and of - + * on zeros (FloatAxioms), no Flocq, no reals.                             *)
+(* ------------------------------------------------------------------ *)
+From Coq Require Import PrimFloat SpecFloat FloatOps Permutation.
+From SP Require Import Proofs.FloatBoundsCombine.
+
+(* the total bounds of the Dask frame (per partition, then over the partitions) against
+   the total bounds of all its rows at once: equal, both zeros, or both NaN, per column;
+   every binary64 content (NaN rows, infinities, signed zeros), every split (empty and
+   all-NaN partitions) *)
+Theorem C09_f_total_bounds_partition_independent : forall parts : list (list frow),
+  frow_eq_mod_zero (f_dask_total_bounds parts) (f_total_bounds (concat parts)).
+Proof. exact f_total_bounds_partition_independent. Qed.
+Print Assumptions C09_f_total_bounds_partition_independent.
+
+(* ... and two frames holding the same rows in ANY order, split in any two ways *)
+Theorem C09_f_total_bounds_permutation_independent : forall parts parts' : list (list frow),
+  Permutation (concat parts) (concat parts') ->
+  frow_eq_mod_zero (f_dask_total_bounds parts) (f_dask_total_bounds parts').
+Proof. exact f_dask_total_bounds_permutation_independent. Qed.
+Print Assumptions C09_f_total_bounds_permutation_independent.
+
+(* _data2coord: the cell of a value does not depend on the sign of a zero end of the range
+   (nor of a zero value).  (v - (+0.0)) and (v - (-0.0)) differ only when v is a zero, in
+   the sign of the zero result; the width hi - lo is the same number unless it is a zero,
+   and then n / width is not computed; product, clips and cast send both zeros to cell 0 *)
+Theorem C09_f_data2coord_zero_sign : forall v v' lo lo' hi hi' n,
+  feq_mod_zero v v' -> feq_mod_zero lo lo' -> feq_mod_zero hi hi' ->
+  f_data2coord v lo hi n = f_data2coord v' lo' hi' n.
+Proof. exact f_data2coord_mod_zero. Qed.
+Print Assumptions C09_f_data2coord_zero_sign.
+
+(* hilbert_distance(total_bounds=tb, p) of a row, widening included *)
+Theorem C09_f_key_zero_sign : forall tb tb' p b,
+  frow_eq_mod_zero tb tb' -> f_hd1 (f_key_tb tb) p b = f_hd1 (f_key_tb tb') p b.
+Proof. exact f_key_mod_zero. Qed.
+Print Assumptions C09_f_key_zero_sign.
+
+(* UNCONDITIONAL: any two partitionings of the same rows: every row gets the same key *)
+Theorem C09_f_key_partition_independent :
+  forall parts parts' p keys keys',
+    concat parts = concat parts' ->
+    f_pack_keys parts p = Some keys ->
+    f_pack_keys parts' p = Some keys' ->
+    concat keys = concat keys'.
+Proof. exact f_pack_keys_partition_independent. Qed.
+Print Assumptions C09_f_key_partition_independent.
+
+(* the rows met in another order as well (which is what can change the sign of a zero
+   bound): the (row, key) pairs of the two frames are the same *)
+Theorem C09_f_key_permutation_independent :
+  forall parts parts' p keys keys',
+    Permutation (concat parts) (concat parts') ->
+    f_pack_keys parts p = Some keys ->
+    f_pack_keys parts' p = Some keys' ->
+    Permutation (combine (concat parts) (concat keys))
+                (combine (concat parts') (concat keys')).
+Proof. exact f_pack_keys_permutation_independent. Qed.
+Print Assumptions C09_f_key_permutation_independent.
+
+(* non-vacuity (statements in Proofs/FloatBoundsCombine.v, closed by vm_compute):
+   rows (+0.0, 1), (-0.0, 2), (4, 8): x0 of the total bounds is +0.0 for the partitions
+   [[a]; [b; c]] and -0.0 for [[b]; [a; c]]; keys 0, 16644, 699050 for a, b, c in both *)
+Example ex_f_zero_sign_depends_on_order : ex_f_zero_sign_depends_on_order_stmt.
+Proof. exact ex_f_zero_sign_depends_on_order_holds. Qed.
+
+(* the same with the zero as the upper bound *)
+Example ex_f_zero_sign_upper : ex_f_zero_sign_upper_stmt.
+Proof. exact ex_f_zero_sign_upper_holds. Qed.
+
+(* a partition holding only missing rows (NaN partition_bounds row), an empty partition,
+   a frame of missing rows only *)
+Example ex_f_all_nan_partition : ex_f_all_nan_partition_stmt.
+Proof. exact ex_f_all_nan_partition_holds. Qed.
+
+(* the relation cannot be pushed through the division: n / +0.0 and n / -0.0 are the two
+   infinities - _data2coord tests x_width == 0 first *)
+Example ex_f_div_sees_zero_sign :
+  feq_mod_zero 0%float (-0)%float /\ ~ feq_mod_zero (1 / 0)%float (1 / (-0))%float.
+Proof. exact f_div_not_mod_zero. Qed.
